@@ -8,7 +8,8 @@ def sh(cmd, cwd):
     p = subprocess.run(cmd, shell=True, cwd=cwd, env=env, capture_output=True, text=True)
     return p.returncode, p.stdout + p.stderr
 rc, st = sh('git status --short', '/repo'); assert st.strip() == '', '/repo is dirty'
-only = sys.argv[1:]
+only = [a for a in sys.argv[1:] if not a.startswith('--')]
+ALLP = [c['property_id'] for c in json.load(open('/verif/MANIFEST.json'))['checks']]
 rows = []
 for d in sorted(glob.glob('/verif/seeded/*/')):
     name = os.path.basename(d.rstrip('/'))
@@ -22,15 +23,23 @@ for d in sorted(glob.glob('/verif/seeded/*/')):
         json.dump(meta, open(d + 'meta.json', 'w'), indent=1)
         continue
     sh(f'git apply {d}patch.diff', '/repo')
+    others = []
     try:
         rc_chk, out_chk = sh(f'./run.sh {prop} quick', '/verif')
+        if '--all' in sys.argv:
+            for p2 in ALLP:
+                if p2 == prop: continue
+                rc2, out2 = sh(f'./run.sh {p2} quick', '/verif')
+                if rc2 == 1:
+                    others.append({'property': p2, 'finding_keys': re.findall(r'\[([A-Z-]+:.*?)\] ', out2)[:3]})
     finally:
         sh('git checkout -q -- .', '/repo')
         sh('git clean -fdq', '/repo')
     keys = re.findall(r'\[([A-Z-]+:.*?)\] ', out_chk)
     detected = rc_chk == 1 and ('VIOLATION property=' + prop) in out_chk
     meta['check'] = {'command': f'./run.sh {prop} quick', 'exit_code': rc_chk, 'detected': detected, 'finding_keys': keys[:8]}
+    if '--all' in sys.argv: meta['also_reported_by_other_checks'] = others
     json.dump(meta, open(d + 'meta.json', 'w'), indent=1)
-    rows.append((name, 'caught' if detected else ('undecided' if rc_chk == 2 else 'missed'), '; '.join(keys[:2])))
+    rows.append((name, 'caught' if detected else ('undecided' if rc_chk == 2 else 'missed'), '; '.join(keys[:2]) + ('   [other checks: ' + ', '.join(o['property'] for o in others) + ']' if others else '')))
 rc, st = sh('git status --short', '/repo'); assert st.strip() == '', st
 for r in rows: print('%-8s %-10s %s' % r)
